@@ -542,6 +542,11 @@ func callSSA(i *interpreter, caller *frame, callpos token.Pos, fn *ssa.Function,
 			return r
 		}
 	}
+	if wantSummary(fn) {
+		if r, ok := trySummary(i, caller, fn, args); ok {
+			return r
+		}
+	}
 	if fn.Parent() == nil {
 		name := fn.String()
 		if ext := externals[name]; ext != nil {
@@ -624,6 +629,12 @@ func runFrame(fr *frame) {
 		if X != nil {
 			X.steps += int64(len(nonPhis))
 			if X.steps > X.StepBudget && X.inCheck {
+				if os.Getenv("GOSYM_DEBUG_BUDGET") != "" {
+					for f := fr; f != nil; f = f.caller {
+						fmt.Fprintf(os.Stderr, "  budget: in %s block %d\n", f.fn, f.block.Index)
+					}
+					fmt.Fprintf(os.Stderr, "  model: %v\n", X.modelMap())
+				}
 				panic(pathAbort{"budget"})
 			}
 			if X.countFns {
